@@ -118,7 +118,7 @@ check("C17",
 check("C11",
   "explicit-state breadth-first search over hostile peer input on a real FullNode (routing, verification and consensus handlers), every delivery order of the internal channels",
   "model_checking",
-  "One real FullNode with a 3-block chain in full-node and in lite (SPV) configuration; an honest peer runs a 7-step script (announce a block, serve it, send a transaction, timers, chain request); three hostile senders (authenticated, connected-but-never-authenticated, unknown index) draw from an alphabet of about 150 symbols: every message tag in hostile shapes (Block-tagged message, chain / ghost-chain requests with 0 and u64::MAX, ghost chains empty / fabricated / huge ids, key lists up to the rate limit, unsolicited handshake traffic, undecodable and truncated buffers), 13 hostile transactions (96-byte golden ticket, no inputs, producer-only types, theft, wrapping amounts, bad path), 17 hostile block buffers served for an announced hash (garbage, truncated, wrong hash / id, bad signatures, double spend, malformed golden ticket / rebroadcast / fee payloads, id 0 and u64::MAX, failing fetch), an invalid-block burst, connection events for known and unknown indices. Histories = interleavings of honest steps, at most 1 (quick) / 2 (thorough, capped) hostile symbols and single deliveries of the verification / consensus / routing channel heads; state = history, deduplicated by digest. Every handler call must return (no panic, no stall, no step-budget cut); every quiescent end state's honest-visible projection (tip, longest chain, utxo, supply, pool, the honest peer's table entry, messages sent to the honest peer) must be one that the hostile-free schedules also reach.",
+  "One real FullNode with a 3-block chain in full-node and in lite (SPV) configuration; an honest peer runs a 7-step script (announce a block, serve it, send a transaction, timers, chain request); three hostile senders (authenticated, connected-but-never-authenticated, unknown index) draw from an alphabet of about 150 symbols: every message tag in hostile shapes (Block-tagged message, chain / ghost-chain requests with 0 and u64::MAX, ghost chains empty / fabricated / huge ids, key lists up to the rate limit, unsolicited handshake traffic, undecodable and truncated buffers), 13 hostile transactions (96-byte golden ticket, no inputs, producer-only types, theft, wrapping amounts, bad path), 17 hostile block buffers served for an announced hash (garbage, truncated, wrong hash / id, bad signatures, double spend, malformed golden ticket / rebroadcast / fee payloads, id 0 and u64::MAX, failing fetch), zero-parent / orphan blocks below and above the tip, an invalid-block burst, connection events for known and unknown indices. In addition an exhaustive sweep of correctly signed zero-amount transactions over type x input count x output count (0..3) x slip-type pattern x payload length (around the golden ticket size), delivered from an authenticated and an unauthenticated peer at two points of the script and to a node without a chain (3312 deliveries). Histories = interleavings of honest steps, at most 1 (quick) / 2 (thorough, capped) hostile symbols and single deliveries of the verification / consensus / routing channel heads; state = history, deduplicated by digest. Every handler call must return (no panic, no stall, no step-budget cut); every quiescent end state's honest-visible projection (tip, longest chain, utxo, supply, pool, the honest peer's table entry, messages sent to the honest peer) must be one that the hostile-free schedules also reach.",
   "Socket layer raises fetch results only for requested fetches and answers disconnect requests; InterfaceIO calls succeed; in lite mode blocks and ghost chains from an authenticated peer are accepted input by design (only abort-freedom is checked for them); announcements of unvalidated side-chain blocks are relayed by design and are not part of the comparison.",
   "DESIGN.md §3 C11")
 
@@ -132,7 +132,7 @@ check("C15",
 check("C12",
   "exhaustive crash-point and torn-write enumeration over the storage-operation journal of real node histories, with restart through the real ConsensusThread::on_init",
   "fault_enumeration",
-  "Histories: a real FullNode (loading mode, like saito-rust) receives, through its consensus handler, the blocks of block trees built by the real producer at genesis period 3 — stems of 3 / 8 / 10 blocks (8 and 10 cross the 2g pruning horizon and the rebroadcast edge) followed by every tree shape of 0..2 (quick) / 0..3 (thorough) further blocks, plus the variants with the last two deliveries swapped (reorganisations, equal-height competitors). The in-memory device journals every write and remove. For every prefix of every journal, for the write at the cut every torn form (absent, empty, cut inside the header, one byte before / exactly at the header end, inside the first transaction's length field, after the length fields, inside the first transaction, half, all but the last byte), and for both settings of delete_old_blocks: restart a fresh FullNode on the image with the real on_init. Oracles: no abort; tip is a block known before the crash or an ancestor; the restarted chain is contiguous, covers the spendable window and satisfies the C03 ledger-consistency clauses; supply is conserved; an honest child of the restarted tip is adopted; after that extension a further clean restart from the node's own files returns the same tip; for the uncut journal the tip, the in-window outputs and the reservoirs equal those before shutdown. Thorough additionally crashes the recovery itself at each of its own storage operations and restarts again.",
+  "Histories: a real FullNode (loading mode, like saito-rust) receives, through its consensus handler, the blocks of block trees built by the real producer at genesis period 3 — stems of 3 / 8 / 10 blocks (8 and 10 cross the 2g pruning horizon and the rebroadcast edge) (quick: stem 8) followed by every tree shape of 0..3 further blocks, tree blocks spending their parent's output, plus the variants with the last two deliveries swapped (reorganisations, equal-height competitors). The in-memory device journals every write and remove. For every prefix of every journal, for the write at the cut every torn form (absent, empty, cut inside the header, one byte before / exactly at the header end, inside the first transaction's length field, after the length fields, inside the first transaction, half, all but the last byte), and for both settings of delete_old_blocks: restart a fresh FullNode on the image with the real on_init. Oracles: no abort; tip is a block known before the crash or an ancestor; the restarted chain is contiguous, covers the spendable window and satisfies the C03 ledger-consistency clauses; supply is conserved; peers then serve again every block of the history the restarted node lacks within its retained range and none of that may abort it; an honest child of the tip is adopted; after that extension a further clean restart from the node's own files returns the same tip; for the uncut journal the tip, the in-window outputs and the reservoirs equal those before shutdown. A separate history re-delivers the blocks already pruned (with and without a restart in between), extends the chain and restarts. Thorough additionally crashes the recovery itself at each of its own storage operations and restarts again.",
   "Device model: write = create(truncate)+write_all (a torn write leaves a prefix), remove atomic; fresh wallet with the same keys at restart; MemIO is not cross-checked against saito-rust's RustIOHandler.",
   "DESIGN.md §3 C12")
 
